@@ -1012,7 +1012,17 @@ class Interp:
             return self.opaque_str('fmt')
         if op == '+' and (isinstance(a, Struct) or isinstance(b, Struct)) and \
                 all(isinstance(x, (str, Struct)) or kind_of(x) == 'str' for x in (a, b)):
-            return Struct('str.concat', (a, b))
+            # concatenation is associative: keep a flat, normalised list of pieces
+            pieces = []
+            for x in (a, b):
+                for y in (x.fields if isinstance(x, Struct) and x.tag == 'str.concat' else (x,)):
+                    if isinstance(y, str) and y == '':
+                        continue
+                    if pieces and isinstance(y, str) and isinstance(pieces[-1], str):
+                        pieces[-1] = pieces[-1] + y
+                    else:
+                        pieces.append(y)
+            return Struct('str.concat', tuple(pieces))
         if op == '+' and (kind_of(a) == 'str' and kind_of(b) == 'str'):
             return mk(z3.Concat(to_term(a), to_term(b)), 'str')
         if a is None or b is None or isinstance(a, (PyObj, EnumMember)) or isinstance(b, (PyObj, EnumMember)):
@@ -1626,6 +1636,19 @@ class Interp:
                     self.raise_builtin('IndexError', 'string index out of range')
             j = self.norm_index(idx, len(obj))
             return obj[j]
+        if isinstance(obj, SymVal) and obj.k == 'str':
+            n = z3.Length(obj.t)
+            def pos(x, default):
+                if x is None:
+                    return default
+                t_ = to_term(x, 'int')
+                return z3.If(t_ < 0, z3.If(n + t_ < 0, z3.IntVal(0), n + t_), z3.If(t_ > n, n, t_))
+            if isinstance(idx, slice):
+                if idx.step is not None:
+                    raise Unsupported('stepped slice of a symbolic string')
+                lo, hi = pos(idx.start, z3.IntVal(0)), pos(idx.stop, n)
+                return mk(z3.SubString(obj.t, lo, z3.If(hi > lo, hi - lo, z3.IntVal(0))), 'str')
+            raise Unsupported('index into a symbolic string')
         if isinstance(obj, CharStr):
             if isinstance(idx, slice):
                 return CharStr(obj.chars[self.concrete_slice(idx)])
